@@ -355,6 +355,14 @@ def _context_and_merge(ctx):
     r4_context_immutable(ctx)              # the set of ignored contigs decides the layout of every genome-wide array
     r1_merge(ctx)                          # boolean masks are built from merged intervals
 
+
+def _round7_shortcuts(ctx):
+    from ..idioms import check_endpoint_samples
+    from .round7 import code_lookup_tables
+    mods = [m for m in ctx.index.modules if m.startswith("bionumpy.genomic_data") or m.startswith("bionumpy.arithmetics") or m.startswith("bionumpy.streams") or m == "bionumpy.io.indexed_fasta"]
+    check_endpoint_samples(ctx, mods, "C09-R8")
+    code_lookup_tables(ctx, mods, "C09-R8")
+
 RULES = [
     ("C09-R1", r1_symbolic_lengths),
     ("C09-R2", r2_dense_expansion),
@@ -365,4 +373,5 @@ RULES = [
     ("C09-R5", _genome_size_and_bins),
     ("C09-R6", r6_sorted_sizes_and_fresh_dense),
     ("C09-R7", _context_and_merge),
+    ("C09-R8", _round7_shortcuts),
 ]
